@@ -94,6 +94,9 @@ def tasks(tier, params):
         out.append(('pointers.nocompress', {'part': 'pointers', 'scenario': dict(
             q=['a'], an=[('SRV', 'a', ['a']), ('KX', 'b', ['a']), ('NAPTR', 'c', ['b'])],
             ns=[('RRSIG', 'a', ['a']), ('NSEC', 'b', ['b']), ('SVCB', 'a', ['a']), ('IPSECKEY', 'b', ['a'])], ar=[], opt=None, names=base)}))
+        # SVCB / HTTPS without parameters (AliasMode when the symbolic priority is 0): the target is still written in full
+        out.append(('pointers.nocompress0', {'part': 'pointers', 'scenario': dict(
+            q=['a'], an=[('SVCB', 'a', ['a']), ('HTTPS', 'b', ['a'])], ns=[('HTTPS', 'a', ['b'])], ar=[], opt=None, names=base, svcb_list=[])}))
     return out
 
 
@@ -361,7 +364,7 @@ def walk_compressed(res, I, bs, sc):
             if tname not in ('NULL', 'NULLBIG', 'A', 'AAAA', 'TXT', 'HINFO', 'CAA') and not tname.startswith('NULL@'):
                 t = S.BY_NAME[tname]
                 p = rd_start
-                fields = t.fields if not t.wrapper else [('n', 'name')]
+                fields = t.fields if not t.wrapper else ([('p', 'u16'), ('n', 'name')] if t.wrapper == 'SVCB' else [('n', 'name')])
                 if t.special:
                     fields = {'NSEC': [('n', 'name')], 'SVCB': [('p', 'u16'), ('n', 'name')],
                               'IPSECKEY': [('a', 'u8'), ('b', 'u8'), ('c', 'u8'), ('n', 'name')]}.get(tname, [])
